@@ -53,7 +53,8 @@ def r1_main(idx, r):
         conds = [(norm(propagate(t, {})), pol) for t, pol in path_conditions(f.node, b)]
         res = [s for s in iter_stores(loop) if s.value is not None and any(x is calls[0] for x in ast.walk(s.value))] if calls else []
         nm = res[0].attr if res else None
-        okb = okb and nm is not None and conds in ([(f"not {nm}", True)], [(nm, False)])
+        call_txt = norm(calls[0]) if calls else None
+        okb = okb and ((nm is not None and conds in ([(f"not {nm}", True)], [(nm, False)])) or (call_txt is not None and conds in ([(f"not {call_txt}", True)], [(call_txt, False)])))
     r.require(okb and len(brk) <= 1, "break-only-on-halt", f, node=brk[0] if brk else loop, msg="the cycle loop may stop early only when _cycleLoop reports a halt")
     # the loop body calls _cycleLoop unconditionally, once
     fb = Flow(f.node, ev, body=loop.body).run()
